@@ -297,6 +297,9 @@ benign("c07-benign-captures-tuple-via-list", "C07", PS, "            capture_sig
 mutant("c07-revert-static-fallback", "C07", PS, '                                "static",\n                                type(value_for_capture).__name__,\n                                repr(value_for_capture),\n', '                                "static",\n                                type(value_for_capture).__name__,\n', expect="capture-payload::static")
 mutant("c07-input-signature-without-dtype", "C07", PS, "            in_sigs.append((shape, str(dtype)))", "            in_sigs.append((shape,))", expect="input-signature")
 mutant("c07-input-signature-rank-only", "C07", PS, "            in_sigs.append((shape, str(dtype)))", "            in_sigs.append((len(getattr(aval, 'shape', ())), str(dtype)))", expect="input-signature")
+mutant("c07-const-capture-python-hash-for-scalars", "C07", PS, "                hash(arr.tobytes()),\n", "                hash(arr.item()) if arr.ndim == 0 else hash(arr.tobytes()),\n", expect="python-hash")
+mutant("c01-function-key-merges-minus-one-and-minus-two", "C01", PS, "                hash(arr.tobytes()),\n", "                hash(value) if isinstance(value, (int, float)) else hash(arr.tobytes()),\n", expect="R-C01i")
+benign("c07-benign-const-capture-raw-bytes", "C07", PS, "                hash(arr.tobytes()),\n", "                arr.tobytes(),\n")
 mutant("c07-const-capture-without-bytes", "C07", PS, "                str(arr.dtype),\n                hash(arr.tobytes()),\n            )", "                str(arr.dtype),\n            )", expect="_capture_const")
 mutant("c07-key-without-captures", "C07", PS, "            qualified_name=qualname, input_sig=in_sigs_t, capture_sig=capture_sig\n", "            qualified_name=qualname, input_sig=in_sigs_t, capture_sig=(id(callee),)\n", expect="FunctionKey")
 mutant("c07-static-param-skipped", "C07", PS, "                value_for_capture = resolved if resolved is not None else original_val\n", "                value_for_capture = resolved if resolved is not None else original_val\n                if isinstance(value_for_capture, (bool, str)):\n                    static_params[pname] = original_val\n                    continue\n", expect="capture-per-parameter")
@@ -395,6 +398,8 @@ multi("c08-benign-passthrough-op-also-propagated", "C08", "benign", [(OPT, "ALLO
 benign("c08-benign-guard-split", "C08", PPF, "            name = _value_name(output)\n            if name and name in io_names:\n                continue\n", "            name = _value_name(output)\n            if name:\n                if name in io_names:\n                    continue\n")
 mutant("c11-attribute-through-helper-mapping", "C11", "jax2onnx/plugins/flax/nnx/elu.py", 'attrs["alpha"] = float(alpha)', 'attrs["slope"] = float(alpha)', expect="slope")
 mutant("c02-swish-operands-not-compared", "C02", OPT, "        if isinstance(sigmoid_input, ir.Value) and _same_value(\n            sigmoid_input, passthrough\n        ):", "        if isinstance(sigmoid_input, ir.Value):", expect="_same_value")
+mutant("c17-integer-width-from-storage-size", "C17", OPT, "        return bool(dtype.is_signed()), int(dtype.bitwidth)\n", "        return bool(dtype.is_signed()), 8 * int(np.dtype(dtype.numpy()).itemsize)\n", expect="R-C17")
+benign("c17-benign-integer-width-from-itemsize", "C17", OPT, "        return bool(dtype.is_signed()), int(dtype.bitwidth)\n", "        return bool(dtype.is_signed()), int(dtype.itemsize * 8)\n")
 mutant("c17-range-last-off-by-one", "C17", OPT, "        last = start + ((limit - start - 1) // delta) * delta\n        return start, last", "        last = start + ((limit - start - 1) // delta) * delta - delta\n        return start, last", expect="range-closed-form")
 mutant("c17-range-negative-delta-sign", "C17", OPT, "    last = start + ((start - limit - 1) // (-delta)) * delta\n    return last, start", "    last = start + ((start - limit - 1) // (-delta)) * delta\n    return start, last", expect="range-closed-form")
 mutant("c17-cast-added-to-value-preserving-ops", "C17", OPT, '        "Expand",\n        "Flatten",', '        "Cast",\n        "Expand",\n        "Flatten",', expect="_INTEGER_VALUE_PRESERVING_OPS::Cast")
